@@ -93,6 +93,20 @@ CHECKS = {
         text="statistical property: fixed seeds and corpus, thresholds with measured margin; the model-checked part is "
              "the unbiasedness lemma behind MCCFR convergence.",
         note="games with a chance infoset repeated on a path are outside the lemma (known finding)"),
+    "C09": dict(
+        category="model_checking", design_ref="4 C09",
+        technique="Stop.tla (early-termination loop as a state machine, StopIsPrefix theorem) model-checked by TLC; "
+                  "thresholded real runs validated against Trace_Stop.tla using float order tokens",
+        text="every thresholded run must be a behaviour of the stop state machine on its own bound sequence and, with one "
+             "thread, the bitwise prefix of the unthresholded run; thresholds at next_down / exact / next_up of every bound.",
+        note="draws pinned through the hook; several threads only with thresholds 1e-6 away from every bound"),
+    "C05": dict(
+        category="fault_enumeration", design_ref="4 C05",
+        technique="TLC enumerates the configuration lattice (MC_Lattice.tla) with the specified verdict per point; each "
+                  "point replayed into Game::solve in a child process under a watchdog",
+        text="systematic enumeration of parameter / budget / threshold / thread-count / method / game combinations, "
+             "including the boundary values of every parameter; panics, hangs and crashes are data.",
+        note="stride slice of a 15M point lattice; usize::MAX/3 exactly is not exercised"),
 }
 
 NOT_YET = "check not built yet (construction in progress, see DESIGN.md section 9)"
